@@ -229,6 +229,23 @@ fn parsed_after(kind: rspirv::grammar::OperandKind, value: u32) -> String {
     }
 }
 
+/// like parsed_after, with the payloads: the Debug text of every delivered parameter (the words fed after the value are 11, 12, 13, ...)
+pub fn parsed_after_debug(kind: rspirv::grammar::OperandKind, value: u32) -> String {
+    use rspirv::grammar as g;
+    let ops: &'static [g::LogicalOperand] = Box::leak(Box::new([g::LogicalOperand { kind, quantifier: g::OperandQuantifier::One }]));
+    let entry: &'static g::Instruction<'static> = Box::leak(Box::new(g::Instruction {
+        opname: "X", opcode: spirv::Op::Nop, capabilities: &[], extensions: &[], operands: ops }));
+    let mut words: Vec<u32> = vec![value];
+    for k in 0..24u32 { words.push(11 + k); }
+    let bytes: Vec<u8> = words.iter().flat_map(|w| w.to_le_bytes().to_vec()).collect();
+    let mut c = crate::consumer::Scripted::new(vec![]);
+    let (r, _off, _lim) = rspirv::binary::verif::parse_operands(&bytes, &mut c, words.len(), entry);
+    match r {
+        Ok(inst) => format!("[{}]", inst.operands.iter().skip(1).map(|o| crate::ops::jstr(&format!("{:?}", o))).collect::<Vec<_>>().join(", ")),
+        Err(_) => "[]".to_string(),
+    }
+}
+
 /// parse ONE operand of the named kind from the given words with the real parser, then re-assemble what was delivered
 pub fn parse_assemble_kind(kind: &str, w0: u32, w1: u32) -> String {
     use rspirv::binary::Assemble;
@@ -262,7 +279,7 @@ fn kinds_json(v: Vec<rspirv::grammar::LogicalOperand>) -> String {
     o.append("pub fn operand_params(kind: &str, n: u32) -> String {\n    use rspirv::dr::Operand;\n    match kind {")
     for k in sorted(pk):
         conv = "spirv::%s::from_bits(n)" % k if k in masks else "spirv::%s::from_u32(n)" % k
-        o.append('        "%s" => match %s { Some(v) => format!("{{\\"additional\\": {}, \\"parsed\\": {}}}", kinds_json(Operand::%s(v).additional_operands()), parsed_after(rspirv::grammar::OperandKind::%s, n)), None => "{\\"error\\": \\"undeclared value\\"}".to_string() },' % (k, conv, k, k))
+        o.append('        "%s" => match %s { Some(v) => format!("{{\\"additional\\": {}, \\"parsed\\": {}, \\"parsed_debug\\": {}}}", kinds_json(Operand::%s(v).additional_operands()), parsed_after(rspirv::grammar::OperandKind::%s, n), parsed_after_debug(rspirv::grammar::OperandKind::%s, n)), None => "{\\"error\\": \\"undeclared value\\"}".to_string() },' % (k, conv, k, k, k))
     o.append('        _ => "{\\"error\\": \\"unknown kind\\"}".to_string(),\n    }\n}\n')
     o.append("pub fn operand_requires(kind: &str, n: u32) -> String {\n    use rspirv::dr::Operand;\n    match kind {")
     for k in sorted(list(enums) + list(masks)):
